@@ -65,6 +65,7 @@ type Obligation struct {
 	LightGoal string
 	KnownFinding bool
 	qs [4]string
+	dropAxioms map[string]bool
 }
 
 type ModelVar struct {
